@@ -8,6 +8,7 @@ import (
 	"os"
 	"path/filepath"
 	"runtime"
+	"sort"
 	"strconv"
 	"strings"
 	"sync"
@@ -52,9 +53,22 @@ func stress(f []string) string {
 		delMu  sync.Mutex
 		delCnt int
 	)
+	var catMu sync.Mutex
+	cats := map[string]int{}
 	report := func(format string, a ...any) {
+		msg := fmt.Sprintf(format, a...)
+		cat := "other"
+		for _, c := range []string{"closed index", "no directory", "refCount", "leak", "panic", "blocked", "snapshot"} {
+			if strings.Contains(msg, c) {
+				cat = strings.ReplaceAll(c, " ", "-")
+				break
+			}
+		}
+		catMu.Lock()
+		cats[cat]++
+		catMu.Unlock()
 		if viol.Add(1) == 1 {
-			first.Store(fmt.Sprintf(format, a...))
+			first.Store(msg)
 		}
 	}
 	use := func(i int, what string) {
@@ -187,7 +201,16 @@ func stress(f []string) string {
 		}
 	}
 	if c := viol.Load(); c != 0 {
-		return fmt.Sprintf("VIOL %v (n=%d)", first.Load(), c)
+		var keys []string
+		for k := range cats {
+			keys = append(keys, k)
+		}
+		sort.Strings(keys)
+		var parts []string
+		for _, k := range keys {
+			parts = append(parts, fmt.Sprintf("%s:%d", k, cats[k]))
+		}
+		return fmt.Sprintf("VIOL %v (n=%d %s)", first.Load(), c, strings.Join(parts, ","))
 	}
 	return "ok"
 }
